@@ -261,7 +261,7 @@ def col_sum(ctx, tk):
     fa = ctx.fa(f)
     subj = lambda t: t.k == "attr" and t.a[1] == "dtype"
     casts = {}
-    for kind in ("signed", "unsigned"):
+    for kind in ("signed", "unsigned", "bool"):
         reach = reachable_under(fa, kind, subj)
         got = set()
         for n in fa.cfg.stmts():
@@ -270,12 +270,14 @@ def col_sum(ctx, tk):
                     if isinstance(x, ast.Call) and isinstance(x.func, ast.Attribute) and x.func.attr == "astype" and x.args:
                         got.add(ast.unparse(x.args[0]).split(".")[-1])
         casts[kind] = got
-    want = {"signed": {"int", "int64", "int_"}, "unsigned": {"uint64", "uint"}}
-    for kind in ("signed", "unsigned"):
+    # bool: numpy counts True cells (np.diff of a boolean array is !=, not a difference: the running sum would stay boolean)
+    want = {"signed": {"int", "int64", "int_"}, "unsigned": {"uint64", "uint"}, "bool": {"int", "int64", "int_", "uint64", "uint"}}
+    for kind in ("signed", "unsigned", "bool"):
         got = casts[kind]
         ok = True if (got and got <= want[kind]) else (False if not got or not (got & want[kind]) else None)
         ctx.decide("C17.h", f, "column sums of %s run values are accumulated in numpy's 64-bit accumulator type" % kind, ok,
-                   "%s values are accumulated as %s: differences and running sums wrap in the narrow dtype" % (kind, sorted(got) or "their own dtype"),
+                   ("bool values are accumulated as %s: np.diff of booleans is `!=` and the running sum stays boolean, so every column reports True instead of a count" % (sorted(got) or "their own dtype",)) if kind == "bool" else
+                   ("%s values are accumulated as %s: differences and running sums wrap in the narrow dtype" % (kind, sorted(got) or "their own dtype")),
                    key="dtype:" + kind, engine="E1")
     calls = [n for n, c in find_calls(fa, lambda c: c.a[0].k == "attr" and c.a[0].a[1] == "remove_empty_intervals")]
     rets = fa.cfg.returns()
